@@ -1,7 +1,7 @@
 ----------------------------- MODULE MC_Sandbox -----------------------------
 (***************************************************************************)
 (* Bounded configurations of Sandbox.tla.                                  *)
-(*   MC_Sandbox_fixed*.cfg    repaired code, all properties, VIEW View     *)
+(*   MC_Sandbox_fixed5.cfg   repaired code, all properties, VIEW View     *)
 (*   MC_Sandbox_noview.cfg    the same without VIEW (cross-check) + GenPattern *)
 (*   MC_Sandbox_unfixed*.cfg  the code before the fix: must violate C18    *)
 (*   MC_Sandbox_live*.cfg     FairSpec => Progress, no VIEW, no constraint *)
